@@ -131,21 +131,21 @@ type Kernel struct {
 	// tasks park by polling and only timeouts far in the future can be left when the tasks
 	// have dead-locked each other.
 	MaxIdleJump int64
-	aborting bool
-	locks    [maxLocks]lockEnt
-	nlocks   int
-	digest   uint64
-	schedHash uint64
+	aborting    bool
+	locks       [maxLocks]lockEnt
+	nlocks      int
+	digest      uint64
+	schedHash   uint64
 	// recorded choices (index into enabled list), bounded
-	Chosen   []uint8
-	nchosen  int
+	Chosen  []uint8
+	nchosen int
 	// pct
-	prio     [maxTasks]int
-	change   [8]int
-	nchange  int
+	prio    [maxTasks]int
+	change  [8]int
+	nchange int
 	// stats
-	Externals int // times a task blocked outside the kernel's knowledge
-	Contended int // times a task was found parked on a held lock
+	Externals  int // times a task blocked outside the kernel's knowledge
+	Contended  int // times a task was found parked on a held lock
 	MaxEnabled int
 	// OnStep, if set, is called by the kernel before every choice (invariants).
 	OnStep func(k *Kernel)
